@@ -17,6 +17,7 @@ import (
 
 	"github.com/panjf2000/gnet/v2/internal/verifmc/seqmc"
 	"github.com/panjf2000/gnet/v2/pkg/buffer/ring"
+	bsPool "github.com/panjf2000/gnet/v2/pkg/pool/byteslice"
 	rbPool "github.com/panjf2000/gnet/v2/pkg/pool/ringbuffer"
 )
 
@@ -318,6 +319,7 @@ func (x *q) content() ([]byte, error) {
 }
 
 func (m *c10) invariants(op string) (string, string) {
+	churnPool(1, 3, 5, 8, 512, 1024, 2048)
 	for qi, x := range m.qs {
 		var buffered int
 		var empty bool
@@ -653,5 +655,24 @@ func TestMC_C10(t *testing.T) {
 	res.Samples = []string{"buffer/4: Write(5); Write(3); Discard(5); WriteTo[30]", "buffer/1024: Writev[1023,2]; Peek(1024); Read(1023); ReadFrom[21]", "pair/4: Write(#0,1024); Write(#1,5); Release(#0); Write(#1,1024)"}
 	if err := res.Write(); err != nil {
 		t.Fatal(err)
+	}
+}
+
+// churnPool plays an unrelated user of the shared byte-slice pool: whatever memory the buffer
+// under test still references must not be handed out by the pool.
+func churnPool(sizes ...int) {
+	var held [][]byte
+	for _, k := range sizes {
+		if k > 0 {
+			b := bsPool.Get(k)
+			full := b[:cap(b)]
+			for i := range full {
+				full[i] = 0xA5
+			}
+			held = append(held, b)
+		}
+	}
+	for _, b := range held {
+		bsPool.Put(b)
 	}
 }
